@@ -1170,3 +1170,15 @@ M('D-effect-inside-trace', ['C05', 'C18'], ['C05.K', 'C18.K'], PROTO,
         self.pop_pending_output(body.ack_frame);""",
   """    fn on_input_ack(&mut self, body: InputAck) {
         trace!("ack {} released: {:?}", body.ack_frame, self.pop_pending_output(body.ack_frame));""", 'the ack is applied inside the arguments of trace!: evaluated only when a subscriber enables TRACE')
+
+# ---------------------------------------------------------------- round 9: pinned expressions, impls, wire fields, shifts
+N('head-increment-commuted', ALL, IQ, "        self.head = (self.head + 1) % INPUT_QUEUE_LENGTH;", "        self.head = (1 + self.head) % INPUT_QUEUE_LENGTH;", 'operands of a sum swapped')
+N('prune-bound-respelled', ALL, PROTO,
+  """                .retain(|&k, _| k >= last_recv_frame - 2 * self.max_prediction as i32);""",
+  """                .retain(|&k, _| k + 2 * self.max_prediction as i32 >= last_recv_frame);""", 'a >= b - c written as a + c >= b')
+M('A-prune-bound-one-window', ['C05', 'C18'], ['C05.A', 'C18.A', 'C05.O6'], PROTO,
+  """                .retain(|&k, _| k >= last_recv_frame - 2 * self.max_prediction as i32);""",
+  """                .retain(|&k, _| k >= last_recv_frame - self.max_prediction as i32);""", 'the decode-reference window halved')
+M('A-ring-index-off-by-one', ['C06'], ['C06.A', 'C06.O3'], SPEC,
+  """                self.inputs[input.frame as usize % SPECTATOR_BUFFER_SIZE][player] = input;""",
+  """                self.inputs[(input.frame as usize + 1) % SPECTATOR_BUFFER_SIZE][player] = input;""", 'spectator ring written one slot further')
